@@ -621,6 +621,47 @@ pub fn fb_pattern_spaces() -> Vec<CfgSpace> {
     ]
 }
 
+/// FIR add-sequences with many distinct SSRCs added in ascending / descending / interleaved order, then one of them
+/// added again with a new sequence number (the model keeps the last): where a small-map fast path hands over to
+/// another structure.
+pub fn fir_many_then_readd_space() -> CfgSpace {
+    let counts: [usize; 10] = [3, 7, 8, 9, 10, 16, 17, 32, 33, 70];
+    CfgSpace::new("fir-many-ssrcs-then-one-again", 10 * 3 * 3, move |idx| {
+        let n = counts[(idx % 10) as usize];
+        let order = (idx / 10) % 3;
+        let again = (idx / 30) % 3;
+        let mut ssrcs: Vec<u32> = (0..n as u32).map(|i| 0x0100_0000 + i * 0x0001_0001).collect();
+        match order {
+            0 => {}
+            1 => ssrcs.reverse(),
+            _ => {
+                let (a, b): (Vec<u32>, Vec<u32>) = (ssrcs.iter().copied().step_by(2).collect(), ssrcs.iter().copied().skip(1).step_by(2).rev().collect());
+                ssrcs = a.into_iter().chain(b).collect();
+            }
+        }
+        let mut adds: Vec<(u32, u8)> = ssrcs.iter().enumerate().map(|(i, s)| (*s, (i % 200) as u8)).collect();
+        let which = match again {
+            0 => ssrcs[0],
+            1 => ssrcs[n / 2],
+            _ => ssrcs[n - 1],
+        };
+        adds.push((which, 0xEE));
+        Pkt::Fb { kind: Kind::Payload, sender: 1, media: 2, fci: Fci::Fir(adds), pad: 0 }
+    })
+}
+
+/// NACK: one dense run of every length 1..=320 (where a burst fast path or a 17-wide packing loop changes gear),
+/// from three starting points
+pub fn nack_dense_run_space() -> CfgSpace {
+    CfgSpace::new("nack-dense-runs-1-to-320", 320 * 3, |idx| {
+        let len = (idx % 320) as u32 + 1;
+        let a = [1000u32, 0, 65_536 - 320][(idx / 320) as usize];
+        let a = a.min(65_536 - len);
+        // added from the top down, so that insertion order is not the sorted order
+        Pkt::Fb { kind: Kind::Transport, sender: 0x5E4D_3C2B, media: 0x1A2B_3C4D, fci: Fci::Nack((0..len).rev().map(|i| (a + i) as u16).collect()), pad: 0 }
+    })
+}
+
 pub fn sli_spaces(_tier: Tier, _seed: u64) -> Vec<CfgSpace> {
     let w13 = u13_walk();
     let w6 = u6_walk();
@@ -752,6 +793,8 @@ pub fn fb_spaces(tier: Tier, seed: u64) -> Vec<CfgSpace> {
     v.extend(pli_spaces(tier, seed));
     v.extend(fb_large_spaces());
     v.extend(fb_pattern_spaces());
+    v.push(fir_many_then_readd_space());
+    v.push(nack_dense_run_space());
     // all paddings on one instance of each FCI
     let pads = pad_all();
     v.push(CfgSpace::new("fb-each-fci-x-all-paddings", 5 * 64, move |idx| {
